@@ -4,7 +4,7 @@
    (inside the file, begin <= end + 1 and well-bracketing are); what is proved
    for all inputs is listed below (well-bracketed events, event tables, offsets), the rest is covered by the per-Next() correspondence and the exactness runs. *)
 From JS Require Import Base Bytes Scanner ScanRun C12Proofs EventSafe.
-From JS Require ExtentSafe InFile.
+From JS Require ExtentSafe InFile OrderSafe.
 From Coq Require Import Lia.
 From JS Require LexemeEvents ScannerProg.
 Open Scope Z_scope.
@@ -57,6 +57,16 @@ Theorem C12_lexeme_extents_are_never_inverted :
     Forall (fun l => lb l <= le l + 1) ls.
 Proof. exact ExtentSafe.lexeme_extents_are_never_inverted. Qed.
 
+(* text order, no overlap: for EVERY input and every oracle table, each lexeme of a file begins
+   after the end of the lexeme delivered before it (the first at an offset >= 0) and ends no
+   earlier than one byte before its own beginning.  Whether a Begin event is pending and how far
+   behind the cursor the last event lies are inferred per state from the regenerated program,
+   checked by symbolic execution of every path (calls/re-dispatches inlined, one branch per state
+   that can be popped, what is known of the current byte tracked), checker proved sound. *)
+Theorem C12_lexemes_come_in_text_order_without_overlap :
+  forall data tbl, let '(ls, _, _) := scan_case data tbl in OrderSafe.chain_ok (-1) ls.
+Proof. exact OrderSafe.lexemes_of_a_file_are_ordered. Qed.
+
 (* for EVERY input: every lexeme lies inside the file (0 <= Begin, End <= size - 1) - provided
    the schema-length oracle (jsight-schema-core) never claims a schema longer than the rest of the
    file; that contract is asserted on every answer the harness records.  Every event position of
@@ -107,6 +117,7 @@ Proof. exact f2_regression. Qed.
 Print Assumptions C12_lexeme_events_are_well_bracketed.
 Print Assumptions C12_queued_events_always_process.
 Print Assumptions C12_lexeme_extents_are_never_inverted.
+Print Assumptions C12_lexemes_come_in_text_order_without_overlap.
 Print Assumptions C12_lexemes_lie_inside_the_file.
 Print Assumptions C12_lexeme_values_are_defined.
 Print Assumptions C12_event_offsets_partial.
